@@ -25,6 +25,19 @@ type MemStore struct {
 	AfterMutate func()
 	Backups     []backupRec
 	backupSeq   int64
+	// DeferWrites models a store write that has been issued but has not completed yet.
+	DeferWrites bool
+	Pending     []Batch
+}
+
+// Flush completes the writes deferred while DeferWrites was set.
+func (s *MemStore) Flush() {
+	s.DeferWrites = false
+	p := s.Pending
+	s.Pending = nil
+	for _, b := range p {
+		s.Mutate(b.Mutations, b.Meta)
+	}
 }
 
 type Batch struct {
@@ -75,6 +88,11 @@ func (s *MemStore) Mutate(mutations []*storage.Mutation, metadata []byte) error 
 	}
 	if s.CrashAfter >= 0 && s.Mutates >= s.CrashAfter {
 		s.Mutates++
+		return nil
+	}
+	if s.DeferWrites {
+		// the write is in flight: it becomes visible when Flush is called
+		s.Pending = append(s.Pending, Batch{Mutations: mutations, Meta: metadata})
 		return nil
 	}
 	s.Mutates++
